@@ -20,12 +20,14 @@ def yearFormOf (yform : String) : Option Spec.YearForm :=
   | ["range", a, s1, s2, b] => do pure (Spec.YearForm.range (← decodeText a) (s1 == "1") (s2 == "1") (← decodeText b))
   | _ => none
 
-/-- one line of a `c02info` request: kind `L` / `N` (tag line: pre, blanks, v, trail), `C` (notice line: pre, holder,
+/-- one line of a `c02info` request: kind `L` / `N` (tag line: pre, blanks, v, trail), `M` / `P` (the same inside a frame: the frame's white space in `key`), `C` (notice line: pre, holder,
     trail, prefix key, year form), `O` (any other line: its text in `pre`) -/
 def infoLineOf (kind : Char) (pre blanks v trail : Text) (key yform : String) : Option Spec.InfoLine :=
   if kind == 'L' then some (.lic ⟨pre, blanks, v, trail⟩)
   else if kind == 'N' then some (.con ⟨pre, blanks, v, trail⟩)
   else if kind == 'O' then some (.other pre)
+  else if kind == 'M' then do pure (.licF ⟨pre, blanks, v, trail⟩ (← decodeText key))     -- framed: white space in `key`
+  else if kind == 'P' then do pure (.conF ⟨pre, blanks, v, trail⟩ (← decodeText key))
   else if kind == 'C' then do
     let kv ← Generated.copyrightPrefixes.find? (·.1 == key)
     let shape ← Spec.prefixShapes.find? (·.1 == kv.2)
@@ -78,20 +80,24 @@ def stepC02 (fields : List String) : Option String :=
       -- do the hypotheses of C02_value_exact (tailSafe instead of noEndSuffixBefore) hold for this line?
       pure (encodeBool (Spec.WFValueSafe Generated.endRe (← tagOf which) (← decodeText pre) (← decodeText blanks)
         (← decodeText v) (← decodeText trail) (← decodeText le)))
-  | ["c02linesg", which, kinds, pres, blanks, vs, trails] => do
+  | ["c02linesg", which, kinds, pres, blanks, vs, trails, wss] => do
       -- do the line-local hypotheses of C02_tag_lines_general hold for every line of this text?  kinds: T = tag line,
-      -- F = line without the tag (its text in `pres`).  Answer: hypotheses | the theorem's text | the values it promises
+      -- R = framed tag line (white space of the frame in `wss`), F = line without the tag (its text in `pres`).  Answer: hypotheses | the theorem's text | the values it promises
       let tag ← tagOf which
       let pres ← decodeList pres
       let blanks ← decodeList blanks
       let vs ← decodeList vs
       let trails ← decodeList trails
+      let wss ← decodeList wss
       let ks := kinds.toList
-      if pres.length != ks.length || blanks.length != ks.length || vs.length != ks.length || trails.length != ks.length then none
+      if pres.length != ks.length || blanks.length != ks.length || vs.length != ks.length || trails.length != ks.length ||
+          wss.length != ks.length then none
       else
         let ls : List Spec.TextLine :=
-          (ks.zip (pres.zip (blanks.zip (vs.zip trails)))).map fun (k, p, b, v, t) =>
-            if k == 'T' then Spec.TextLine.tagged ⟨p, b, v, t⟩ else Spec.TextLine.free p
+          (ks.zip (pres.zip (blanks.zip (vs.zip (trails.zip wss))))).map fun (k, p, b, v, t, w) =>
+            if k == 'T' then Spec.TextLine.tagged ⟨p, b, v, t⟩
+            else if k == 'R' then Spec.TextLine.framed ⟨p, b, v, t⟩ w
+            else Spec.TextLine.free p
         pure (encodeBool (ls.all (·.ok Generated.endRe tag)) ++ "|" ++ encodeText (Spec.textOf tag ls) ++ "|" ++
           encodeList (ls.filterMap (·.value)))
   | ["c02info", kinds, pres, blanks, vs, trails, keys, yforms] => do
